@@ -1,5 +1,5 @@
 import WacProofs.Props.C09General
-import WacProofs.Lemmas.AggNAll
+import WacProofs.Lemmas.AggNAllTotal
 /-
   C09 — general theorems for the NESTED fragment (`nfragB cs = true`, decidable): every contributor
   is an instance requirement whose interface, and every interface nested in it to any depth, is
@@ -11,8 +11,10 @@ import WacProofs.Lemmas.AggNAll
   Proved: the invariant, `agg_upper_bound_nested`, `agg_greatest_nested`, `agg_perm_nested_partial`
   (when both orders succeed), `lower_redirected_nested`, `canonical_highest_nested`, and
   `merge_interface_nested` (one `merge_interface` call = the specification's `meet`, at every
-  nesting depth).  Not proved for this fragment: totality / `fails_iff_incompatible` (so the verdict
-  half of `agg_perm` and `agg_idempotent`); they are proved for the flat fragment in C09General.
+  nesting depth), and TOTALITY: `fails_iff_incompatible_nested` (never panics; `Ok` exactly when
+  every class of semver-compatible requirement names has a common subtype — an order-independent
+  condition), `agg_perm_nested` (full: verdict and trees), `merge_interface_nested_fails_iff`.
+  Not proved for this fragment: `agg_idempotent` (proved for the flat fragment in C09General).
 -/
 namespace Wac.Props.C09Nested
 open Wac Wac.Spec Wac.AggP Wac.Props.C09General
@@ -230,5 +232,114 @@ example : nfragB [qA, qB] = true ∧ (aggregateAll [qA, qB] Agg.empty).toOption.
     (aggregateAll [qA, qB] Agg.empty).toOption.map (fun A => A.agg.imports.map (·.1)) = some ["a:b/c@1.2.0".toList] ∧
     [qA, qB].Perm [qB, qA] ∧ compat qA.1 qB.1 = true := by
   refine ⟨by decide +kernel, by decide +kernel, by decide +kernel, by decide +kernel, List.Perm.swap _ _ _, by decide⟩
+
+/-! ### totality, `fails_iff_incompatible`, full order independence -/
+
+/-- every class of semver-compatible requirement names has a common subtype: a type with distinct
+names that is a subtype of the requirement of every member of the class -/
+def ClassLB (cs : List Req) : Prop :=
+  ∀ r, r ∈ cs → ∃ X : Tree, X.namesDistinct = true ∧
+    ∀ r', r' ∈ cs → compat r'.1 r.1 = true → ∀ c, r'.2.1.unfold r'.2.2 = some c → sub X c = true
+
+theorem allLB_iff_classLB (cs : List Req) (hall : ∀ r, r ∈ cs → (nestForest r).isSome = true) :
+    AllLB (withNForests cs) ↔ ClassLB cs := by
+  constructor
+  · intro h r hr
+    obtain ⟨G, hmem, _⟩ := mem_withNForests hall hr
+    obtain ⟨X, hX, hXall⟩ := h (r, G) hmem
+    refine ⟨X, hX, fun r' hr' hc c hcu => ?_⟩
+    obtain ⟨G', hmem', hfG'⟩ := mem_withNForests hall hr'
+    have := hXall (r', G') hmem' hc
+    rw [(nestForest_spec hfG').2] at hcu
+    cases hcu
+    exact this
+  · intro h q hq
+    obtain ⟨hqm, hfq⟩ := withNForests_mem hq
+    obtain ⟨X, hX, hXall⟩ := h q.1 hqm
+    refine ⟨X, hX, fun q' hq' hc => ?_⟩
+    obtain ⟨hqm', hfq'⟩ := withNForests_mem hq'
+    exact hXall q'.1 hqm' hc _ (nestForest_spec hfq').2
+
+/-- **`fails_iff_incompatible_nested`** (nested fragment, full): aggregation never panics; it
+succeeds exactly when every class of semver-compatible requirement names has a common subtype
+(`ClassLB`, an order-independent condition of the specification: `meet_isSome_iff`); otherwise
+it returns an error. -/
+theorem fails_iff_incompatible_nested (cs : List Req) (hf : nfragB cs = true) :
+    ((∃ A, aggregateAll cs Agg.empty = .ok A) ↔ ClassLB cs) ∧
+    (∀ e, aggregateAll cs Agg.empty = .error e → ∃ m, e = .err m) := by
+  obtain ⟨hall, hpw⟩ := nfragB_spec hf
+  have hmap := withNForests_map (fun r hr => (hall r hr).1)
+  have := aggregateAll_ntotal (W := collsOf cs hpw) (withNForests cs) [] Agg.empty
+    (ginvN_empty _ (by rintro C ⟨r, hr, rfl⟩; exact (hall r hr).2)) rfl
+    (by
+      intro p hp
+      obtain ⟨hm, hfp⟩ := withNForests_mem hp
+      exact ⟨(nestForest_spec hfp).1, p.1, hm, rfl⟩)
+    (by intro p _ q hq; cases hq)
+    (by
+      have : ((withNForests cs).map (·.1)).Pairwise (fun a b : Req => a.2.1.uid ≠ b.2.1.uid) := by
+        rw [hmap]; exact hpw
+      exact (List.pairwise_map (f := fun p : Req × Forest => p.1) (R := fun a b : Req => a.2.1.uid ≠ b.2.1.uid)).1 this)
+  rw [hmap, lbFrom_nil_iff, allLB_iff_classLB cs (fun r hr => (hall r hr).1)] at this
+  exact this
+
+/-- `i: instance { x: instance { a: func() } }` against `i: instance { x: func() }` (an instance
+against a function under the same name) and against `i: instance { x: instance { a: value u8 } }`
+(a mismatch two levels down) -/
+def nC : Types := { uid := 3, funcs := [{}], interfaces := [{ exports := [(['x'], .func 0)] }] }
+def nD : Types :=
+  { uid := 4, interfaces := [{ exports := [(['a'], .value (.prim .u8))] }, { exports := [(['x'], .instance 0)] }] }
+def qC : Req := ("a:b/c@1.3.0".toList, nC, .instance 0)
+def qD : Req := ("a:b/c@1.0.5".toList, nD, .instance 1)
+
+/-- both directions are exercised: a compatible list succeeds, incompatible ones fail with an
+error (not a panic), in every position of the offending requirement -/
+example : nfragB [qA, qB] = true ∧ nfragB [qA, qC] = true ∧ nfragB [qA, qB, qD] = true ∧
+    (aggregateAll [qA, qB] Agg.empty).toOption.isSome = true ∧
+    (aggregateAll [qA, qC] Agg.empty).toOption.isSome = false ∧
+    (aggregateAll [qC, qA] Agg.empty).toOption.isSome = false ∧
+    (aggregateAll [qA, qB, qD] Agg.empty).toOption.isSome = false ∧
+    (aggregateAll [qD, qB, qA] Agg.empty).toOption.isSome = false := by decide +kernel
+
+/-- **`agg_perm_nested`** (nested fragment, FULL): for a permutation of the contributors the
+verdict is the same (`Ok` in one order iff `Ok` in the other; an error is never a panic) and, when
+it is `Ok`, every contributor's merged import is the same type up to the order of its exports. -/
+theorem agg_perm_nested (cs cs' : List Req) (hp : cs.Perm cs') (hf : nfragB cs = true) :
+    ((∃ A, aggregateAll cs Agg.empty = .ok A) ↔ (∃ A', aggregateAll cs' Agg.empty = .ok A')) ∧
+    (∀ e, aggregateAll cs' Agg.empty = .error e → ∃ m, e = .err m) ∧
+    (∀ A A', aggregateAll cs Agg.empty = .ok A → aggregateAll cs' Agg.empty = .ok A' →
+      ∀ r, r ∈ cs → ∀ m m', MergedTree A r.1 m → MergedTree A' r.1 m' → sub m m' = true ∧ sub m' m = true) := by
+  have hf' := nfragB_perm hp hf
+  refine ⟨?_, (fails_iff_incompatible_nested cs' hf').2,
+    fun A A' h h' r hr m m' hm hm' => agg_perm_nested_partial cs cs' hp hf A A' h h' r hr m m' hm hm'⟩
+  rw [(fails_iff_incompatible_nested cs hf).1, (fails_iff_incompatible_nested cs' hf').1]
+  exact ⟨fun h r hr => by
+      obtain ⟨X, hX, hall⟩ := h r (hp.mem_iff.2 hr)
+      exact ⟨X, hX, fun r' hr' => hall r' (hp.mem_iff.2 hr')⟩,
+    fun h r hr => by
+      obtain ⟨X, hX, hall⟩ := h r (hp.mem_iff.1 hr)
+      exact ⟨X, hX, fun r' hr' => hall r' (hp.mem_iff.1 hr')⟩⟩
+
+example : [qA, qB, qD].Perm [qD, qB, qA] ∧ nfragB [qA, qB, qD] = true := ⟨by decide, by decide +kernel⟩
+
+/-- **`merge_interface_nested_fails_iff`**: one `merge_interface` call on the nested fragment, with
+enough fuel, never panics, and fails exactly when the specification's merge of the two instance
+types is undefined — i.e. (`meet_isSome_iff`) when they have no common subtype. -/
+theorem merge_interface_nested_fails_iff {W : Colls} {types : Types} (hW : W.mem types) (hs : Sane types)
+    (fuel : Nat) (S : Nat → Prop) (e id m : Nat) (s : AggState) (F G : Forest) (d : Nat)
+    (hT : NState W types S e s F) (hcfg : s.cfg.remapReplaced = true) (hsrc : SrcOK types d id)
+    (hG : ∀ si, types.interfaces[id]? = some si → unfoldItems (types.unfoldKind m) si.exports = some G)
+    (hm : m < types.fuel) (hGnd : G.namesDistinct = true) (hfuel : 2 * m + 2 ≤ fuel) :
+    ((∃ s', mergeInterface fuel e types id s = .ok ((), s')) ∨
+      (∃ msg, mergeInterface fuel e types id s = .error (.err msg))) ∧
+    ((∃ s', mergeInterface fuel e types id s = .ok ((), s')) ↔ ∃ M, meet (.instance F) (.instance G) = some M) := by
+  have hG' : ∀ si, types.interfaces[id]? = some si → unfoldItems (types.unfoldKind types.fuel) si.exports = some G :=
+    fun si hsi => unfoldItems_fuel_mono (Nat.le_of_lt hm) (hG si hsi)
+  rcases mergeInterface_ntotal hW hs fuel S e id m s F G d hT hcfg hsrc hG hm hGnd hfuel with ⟨s1, h1⟩ | ⟨msg, h1, hnone⟩
+  · refine ⟨.inl ⟨s1, h1⟩, fun _ => ?_, fun _ => ⟨s1, h1⟩⟩
+    obtain ⟨R, _, _, hmeet⟩ := mergeInterface_nest hW hs fuel S e id s s1 F G d hT hsrc hG' hGnd h1
+    exact ⟨_, hmeet⟩
+  · refine ⟨.inr ⟨msg, h1⟩, ⟨(fun ⟨s1, h2⟩ => by rw [h1] at h2; cases h2), (fun ⟨M, hM⟩ => ?_)⟩⟩
+    simp [meet, hnone] at hM
 
 end Wac.Props.C09Nested
